@@ -22,15 +22,14 @@ func checkC05(r *mon.Run) {
 		"SCMP codes of rejections are recorded, not judged (the statement only demands rejection)",
 		"first-hop packets arriving over a sibling link are outside the statement and not generated",
 	}
-	rng := r.Rand("c05")
-	nStars := r.Pick(4, 16)
-	per := r.Pick(8000, 80000)
-	for si := 0; si < nStars; si++ {
+	nStars := r.Pick(16, 48)
+	per := r.Pick(30000, 250000)
+	forStars(r, nStars, func(si int, rng *rand.Rand) {
 		s := newStdStar(r, rng, si%2 == 0, false)
 		for i := 0; i < per; i++ {
 			c05Case(r, rng, s, i)
 		}
-	}
+	})
 	r.Require(int64(nStars*per), 40, "accept_forward", "accept_deliver", "reject")
 	r.RequireClasses()
 }
